@@ -347,14 +347,14 @@ def gen_tasks(ctx, docs, quick):
     for fmt, dl in per_fmt.items():
         for name, text in dl:
             faults = list(C.all_single_faults(fmt, text))
-            k = max(20, budget // len(dl)) if quick else (2000 if fmt == "cif" else 5000)
+            k = max(20, budget // len(dl)) if quick else (5000 if fmt == "cif" else 20000)
             if len(faults) > k:
                 faults = rng.sample(faults, k)
             faults.insert(0, ("valid", text))
             for d, t in faults:
                 tasks.append([(fmt, name, d), fmt, t])
         L = [ln for _, text in dl for ln in text.split("\n")]
-        ns = 60 if quick else 1000
+        ns = 60 if quick else 3000
         for k in range(ns):
             tasks.append([(fmt, "soup", "token:%d" % k), fmt, C.token_soup(fmt, rng)])
             tasks.append([(fmt, "soup", "records:%d" % k), fmt, C.structured_soup(fmt, rng, L)])
